@@ -283,7 +283,7 @@ def scanner_tables(ctx, res, rule):
     tables = 0
     for fname, chk, kind in specs:
         b = P.fn(fname)
-        cb = P.fn(chk)
+        cb = P.fn(chk, required=False) or b        # the byte classification may be a helper (`check`) or written in the scanner itself
         fn = fshort(b)
         sl = scan_loop(b)
         if sl is None:
@@ -299,7 +299,7 @@ def scanner_tables(ctx, res, rule):
             for boundary in (True, False):
                 for pause in ((True, False) if kind == "linebreak" else (None,)):
                     examined = []
-                    I = A.Interp(P, inline=[cb["def_path"]], models=_byte_models(cls, boundary, examined))
+                    I = A.Interp(P, inline=[cb["def_path"]] if cb is not b else [], models=_byte_models(cls, boundary, examined))
                     I.lazy_locals = True
 
                     def run(J):
@@ -443,12 +443,75 @@ def _indent_remover_table(ctx, res, rule):
 REVIEWED_NON_PAUSING = {
     # (function, callee) : reason
     ("BlockIndentRemover::format", "find_next_line_break_pos"): "line walk: the result is only the loop cursor; deleted ranges are bounded by min(_, first non-blank) (R6)",
+    ("BlockIndentRemover::format", "find_prev_line_break_pos"): "measures indentation widths (amounts); every deleted range of this function is bounded by min(_, first non-blank) (R6b), whatever the amount",
     ("code::formatter::block_indent_remover::get_indent_len", "find_prev_line_break_pos"): "result feeds a *count* of blanks, never a range endpoint",
     ("UnwrapBlockMarkerBuilder::build", "find_next_line_break_pos"): "wrapper lines are removed whole by definition of unwrap-block",
     ("UnwrapBlockMarkerBuilder::build", "find_prev_line_break_pos"): "wrapper lines are removed whole by definition of unwrap-block",
     ("code::list::build_pretty_string_item", "find_prev_line_break_pos"): "listing only: nothing is deleted",
     ("code::list::build_pretty_string_item", "find_next_line_break_pos"): "listing only: nothing is deleted",
 }
+
+
+def _only_counted(b, call):
+    """The position returned by a non-pausing scan is harmless if no range can be built from it: every local derived from it
+    (through lets, `map` / `unwrap_or` closures, arithmetic) is used only inside arguments of the blank counters
+    (`blank_counter::count*`, whose result is a number of blanks, not a position), in comparisons, or as the start of a further
+    *pausing / first-non-blank* scan - and never inside a range literal, a pushed or returned value."""
+    def sanitizer(n):
+        return n.get("k") == "call" and "blank_counter::count" in T.short_path(T.callee(n) or "")
+    lets = [s_ for s_ in T.nodes(b["tree"], "let") if s_.get("init") is not None]
+    tainted = set()
+
+    def mentions(e, skip_sanitized=True):
+        for x, par in T.walk(e):
+            if skip_sanitized and any(sanitizer(p_) for p_ in par):
+                continue
+            if x is call:
+                return True
+            if x.get("k") == "path" and T.local_of(x) in tainted:
+                return True
+        return False
+    changed = True
+    while changed:
+        changed = False
+        for s_ in lets:
+            if mentions(s_["init"]):
+                for x in T.pat_nodes(s_["pat"]):
+                    if x.get("p") == "bind" and x["id"] not in tainted:
+                        tainted.add(x["id"])
+                        changed = True
+        # closure parameters of combinators applied to a tainted value
+        for n in T.nodes(b["tree"], "mcall"):
+            if n["name"] in ("map", "and_then", "map_or", "unwrap_or_else", "filter", "is_some_and") and mentions(n["recv"]):
+                for a in n["args"]:
+                    a_ = T.peel(a)
+                    if a_.get("k") == "closure":
+                        for p_ in a_["params"]:
+                            for x in T.pat_nodes(p_["pat"]):
+                                if x.get("p") == "bind" and x["id"] not in tainted:
+                                    tainted.add(x["id"])
+                                    changed = True
+        for n in T.nodes(b["tree"]):
+            if n.get("k") in ("assign", "assign_op") and mentions(n["r"]):
+                lid = T.local_of(T.peel_ref(n["l"]))
+                if lid is not None and lid not in tainted:
+                    tainted.add(lid)
+                    changed = True
+    idx_ranges = {id(T.peel(x["idx"])) for x in T.nodes(b["tree"], "index")}
+    for n in T.nodes(b["tree"]):
+        k = n.get("k")
+        if k == "struct" and {f["name"] for f in n["fields"]} == {"start", "end"} and id(n) not in idx_ranges and mentions(n):
+            return False
+        if k == "ret" and n.get("e") is not None and mentions(n["e"]):
+            return False
+        if k == "mcall" and n["name"] in ("push", "extend", "insert") and any(mentions(a) for a in n["args"]):
+            return False
+    blk = T.peel(b["tree"])
+    while blk.get("k") == "blockexpr":
+        blk = blk["block"]
+    if blk.get("tail") is not None and mentions(blk["tail"]):
+        return False
+    return True
 
 
 def pausing_sites(ctx, res, rule):
@@ -473,6 +536,8 @@ def pausing_sites(ctx, res, rule):
                 res.holds(rule, fn, site, "pausing")
             elif (fn, callee_name) in REVIEWED_NON_PAUSING and flag is False:
                 res.holds(rule, fn, site, "reviewed exception: " + REVIEWED_NON_PAUSING[(fn, callee_name)])
+            elif flag is False and _only_counted(b, n):
+                res.holds(rule, fn, site, "the result only reaches a count of blanks (blank_counter), never a range endpoint")
             else:
                 res.add(Finding(rule, fn, site, "scanner called with pause_on_char=%s where a deleted range is derived from the result: it would run "
                                 "across non-blank text" % T.render(n["args"][3]), loc=T.loc(n)))
@@ -801,7 +866,7 @@ def byte0_examined(ctx, res, rule):
     """In a backward scan, the exit on `cursor == 0` must not precede the examination of index 0."""
     P = ctx.lib
     b = P.fn("find_prev_line_break_pos")
-    cb = P.fn("line_break_pos_finder::check")
+    cb = P.fn("line_break_pos_finder::check", required=False)
     fn = fshort(b)
     sl = scan_loop(b)
     if sl is None:
@@ -822,7 +887,7 @@ def byte0_examined(ctx, res, rule):
         for cls in (A.Lit(10, "byte"), A.Lit(32, "byte"), A.CharClass(None, excluded={10, 32, 9})):
             for pause in (True, False):
                 examined = []
-                I = A.Interp(P, inline=[cb["def_path"]], models=_byte_models(cls, True, examined))
+                I = A.Interp(P, inline=[cb["def_path"]] if cb else [], models=_byte_models(cls, True, examined))
                 I.lazy_locals = True
 
                 def run_for(J):
@@ -851,7 +916,7 @@ def byte0_examined(ctx, res, rule):
     for cls in (A.Lit(10, "byte"), A.Lit(32, "byte"), A.CharClass(None, excluded={10, 32, 9})):
         for pause in (True, False):
             examined = []
-            I = A.Interp(P, inline=[cb["def_path"]], models=_byte_models(cls, True, examined))
+            I = A.Interp(P, inline=[cb["def_path"]] if cb else [], models=_byte_models(cls, True, examined))
             I.lazy_locals = True
 
             def run(J):
